@@ -125,9 +125,21 @@ Definition is_file (o : option node) : bool :=
 
 (* resolveRelToBase's loop, os.Lstat(base/dir) for every proper non-empty prefix dir of the
    path: none may be a symlink (explicit error; a symlink further up is resolved by the kernel
-   and ends in this or another error), and none but the deepest may be a regular file
-   (ENOTDIR is not IsNotExist, so it is returned); a missing one is fine *)
+   and ends in this or another error); a directory that does not exist -- also because a
+   component above it is a regular file (ENOTDIR) or longer than NAME_MAX (ENAMETOOLONG) --
+   is fine: nothing can be a symbolic link there *)
 Fixpoint check_dirs (f : fs) (acc rest : path) : bool :=
+  match rest with
+  | [] => true
+  | x :: rest' =>
+      match rest' with
+      | [] => true
+      | _ :: _ => negb (is_link (fs_lookup f (acc ++ [x]))) && check_dirs f (acc ++ [x]) rest'
+      end
+  end.
+
+(* before the fix ENOTDIR was returned as an error: no prefix but the deepest could be a regular file *)
+Fixpoint check_dirs_prefix (f : fs) (acc rest : path) : bool :=
   match rest with
   | [] => true
   | x :: rest' =>
@@ -139,7 +151,7 @@ Fixpoint check_dirs (f : fs) (acc rest : path) : bool :=
           | [] => true
           | _ :: _ => negb (is_file (fs_lookup f (acc ++ [x])))
           end &&
-          check_dirs f (acc ++ [x]) rest'
+          check_dirs_prefix f (acc ++ [x]) rest'
       end
   end.
 
@@ -553,20 +565,15 @@ Fixpoint file_paths (rel : path) (t : tree) : list path :=
   | Dir _ _ ch => flat_map (fun nc => file_paths (rel ++ [fst nc]) (snd nc)) ch
   end.
 
-(* no proper non-empty prefix of q is one of the link paths, and none but the deepest is a file path *)
+(* no proper non-empty prefix of q is one of the link paths ([isfile] is no longer consulted:
+   a target may pass through a regular file) *)
 Fixpoint prefixes_clear (islink isfile : path -> bool) (acc rest : path) : bool :=
   match rest with
   | [] => true
   | x :: rest' =>
       match rest' with
       | [] => true
-      | _ :: rest'' =>
-          negb (islink (acc ++ [x])) &&
-          match rest'' with
-          | [] => true
-          | _ :: _ => negb (isfile (acc ++ [x]))
-          end &&
-          prefixes_clear islink isfile (acc ++ [x]) rest'
+      | _ :: _ => negb (islink (acc ++ [x])) && prefixes_clear islink isfile (acc ++ [x]) rest'
       end
   end.
 
